@@ -253,7 +253,7 @@ func mutMatrix(args []string) {
 				}
 				p := append([]jl.Frag{jl.FRoot(), jl.FChild("rows"), mf, jl.FDesc()}, tail...)
 				for _, cl := range calls(p, allOps, false) {
-					emit(3, rowsDoc(oc), cl)
+					emit(4, rowsDoc(oc), cl)
 				}
 			}
 		}
